@@ -509,7 +509,19 @@ func resetPools() {
 	for _, p := range pools {
 		p.ResetForExecution()
 	}
+	// model state of synchronisation objects that were used in the previous execution: an execution that was cut
+	// short (pruned, horizon) may have left them locked, and an object can outlive the execution (e.g. a lock inside
+	// a loaded epoch that every execution copies)
+	for r := range touched {
+		r.ResetForExecution()
+		delete(touched, r)
+	}
 }
+
+var touched = map[resettable]struct{}{}
+
+// Touch records that the model state of r was used in the running execution; it is reset before the next one.
+func Touch(r resettable) { touched[r] = struct{}{} }
 
 // RecvOnly1 is RecvOnly returning only the value.
 func RecvOnly1[T any](ch <-chan T) T {
